@@ -22,6 +22,7 @@ RULE = ("corpus-derived structures (segments / balls of the reference proteins, 
         "(for --protonate-all: it added >= 1 hydrogen); distinct by hash of (input, edited input, options).")
 ASSUMPTIONS = [
     "END records are only appended at the end of the file; blank serial fields are not generated (malformed per C19)",
+    "open finding F16 (--protonate-all next to incomplete residues) excluded by signature",
     "keep-protons clause: skipped (counted as 'h-ambiguous') when a constructed hydrogen lies within 1.5 A of a heavy "
     "atom other than its parent, because bond perception then legitimately differs",
 ]
@@ -224,7 +225,8 @@ def check_case(case):
         if ra["error"] and rb["error"] and ra["error"]["type"] == rb["error"]["type"]:
             return [], {"labels": ["both-error"]}
         diffs = observe.compare_records(ra, rb, tol=1e-9)
-        v = [{"clause": "protonate-all-no-effect", "detail": common.fmt_diffs(diffs)}] if diffs else []
+        v = [{"clause": "protonate-all-no-effect", "detail": common.fmt_diffs(diffs),
+              "sig": incomplete_sig(base, [d["key"] for d in diffs])}] if diffs else []
         added = 0
         if not ra["error"] and not rb["error"]:
             for c in ra["conf_names"]:
@@ -249,6 +251,27 @@ def check_case(case):
         return v, {"nontrivial": nh > 0 and stats["with_dets"] >= 1,
                    "labels": list(case.get("labels", [])) + ["keep-protons"]}
     raise ValueError(kind)
+
+
+def incomplete_sig(text, keys):
+    """'incomplete-residue-protonation' if every given file index lies within 15 A of an amino-acid residue whose
+    heavy-atom set differs from its template (open finding F16)."""
+    from vlib import templates
+    entries = pdbio.parse(text)
+    atoms = pdbio.atoms_of(entries)
+    bad = []
+    for (m, c, n, ic, t), ats in pdbio.residues([a for a in atoms if not a.is_h]):
+        if ats[0].rec == "ATOM" and t in templates.SIDE_BONDS:
+            names = sorted(a.aname for a in ats)
+            want, _b = templates.template(t, "OXT" in names)
+            if names != sorted(want):
+                bad.extend(ats)
+    if not bad or not keys:
+        return None
+    for k in keys:
+        if not isinstance(k, int) or not any(pdbio.sq_dist(atoms[k], b) < 15000 ** 2 for b in bad):
+            return None
+    return "incomplete-residue-protonation"
 
 
 def feed_back_hydrogens(text, rec, conf=None):
